@@ -17,6 +17,7 @@ import SamVerif.Drive.C13
 import SamVerif.Drive.C11
 import SamVerif.Drive.C08
 import SamVerif.Drive.C20
+import SamVerif.Drive.C16
 open SamVerif.Drive
 
 def dispatch (line : String) : String :=
@@ -36,6 +37,7 @@ def dispatch (line : String) : String :=
     else if k.startsWith "c11." then C11.handle k args impl
     else if k.startsWith "c08." then C08.handle k args impl
     else if k.startsWith "c20." then C20.handle k args impl
+    else if k.startsWith "c16." then C16.handle k args impl
     else "bad-op"
   | _ => "bad-op"
 
